@@ -295,7 +295,7 @@ def check_query_helpers(ctx, rng):
         o.pop("query"), b.pop("query")
         return o == b
     if op == "include":
-        kw = {rng.choice(["a", "b", "c", "zz", "é"]): rng.choice(["9", 7, "", "p q", 0, "é&="]) for _ in range(rng.randrange(1, 3))}
+        kw = {rng.choice(["a", "b", "c", "zz", "é"]): rng.choice(["9", 7, "", "p q", 0, "é&="]) for _ in range(rng.randrange(0, 3))}  # (possibly none: **filters with an empty dict)
         case["kwargs"] = kw
         new = base.include_query_params(**kw)
         got = parse_qsl(new.query, keep_blank_values=True)
@@ -306,14 +306,14 @@ def check_query_helpers(ctx, rng):
             if [vv for kk, vv in got if kk == k] != [str(v)]:
                 ctx.violation("query|include|key-not-set-to-single-value", case, repr(got))
     elif op == "replace":
-        kw = {rng.choice(["a", "b", "zz"]): rng.choice(["9", 7, ""]) for _ in range(rng.randrange(1, 3))}
+        kw = {rng.choice(["a", "b", "zz"]): rng.choice(["9", 7, ""]) for _ in range(rng.randrange(0, 3))}  # no parameter at all: the query is replaced by an empty one
         case["kwargs"] = kw
         new = base.replace_query_params(**kw)
         got = parse_qsl(new.query, keep_blank_values=True)
         if got != [(k, str(v)) for k, v in kw.items()]:
             ctx.violation("query|replace|query-not-replaced", case, repr(got))
     else:
-        ks = rng.sample(["a", "b", "c", "zz"] + keys, rng.randrange(1, 3))
+        ks = rng.sample(["a", "b", "c", "zz"] + keys, rng.randrange(0, 3))
         case["keys"] = ks
         new = base.remove_query_params(*ks)
         got = parse_qsl(new.query, keep_blank_values=True)
